@@ -28,20 +28,20 @@ def plan(tier, seed):
     specs = []
     q = tier == "quick"
     ab = 8 if q else 20
-    for i in range(24 if q else 240):
+    for i in range(24 if q else 144):
         specs.append({"kind": "mut", "seed": seed, "chunk": i, "abandon": ab, "heavy_cap": 260 if q else 600})
-    for i in range(8 if q else 80):
+    for i in range(8 if q else 48):
         specs.append({"kind": "trunc", "seed": seed, "chunk": i, "abandon": ab})
-    for i in range(12 if q else 120):
+    for i in range(12 if q else 72):
         specs.append({"kind": "soup", "seed": seed, "chunk": i, "n": 500, "abandon": ab})
-    for i in range(4 if q else 40):
+    for i in range(4 if q else 24):
         specs.append({"kind": "shapes", "seed": seed, "chunk": i, "abandon": ab})
-    for i in range(8 if q else 80):
+    for i in range(8 if q else 48):
         specs.append({"kind": "noise", "seed": seed, "chunk": i, "n": 120 if q else 400, "abandon": ab})
-    for i in range(3 if q else 20):
+    for i in range(3 if q else 12):
         specs.append({"kind": "diverge", "seed": seed, "chunk": i, "abandon": ab})
     if not q:
-        for i in range(16):
+        for i in range(12):
             specs.append({"kind": "valgrind", "seed": seed, "chunk": i, "n": 250, "abandon": 60})
     return specs
 
